@@ -45,4 +45,15 @@ var plans = map[string]propPlan{
 		Assume: []string{"reference SLIP-0010 model in sim/ref written from the specification (own Jacobian curve arithmetic, stdlib HMAC/SHA/ed25519), self-tested against the published SLIP-0010 vectors including the retry vectors", "sampling, not enumeration",
 			"the real curves' own validity boundary (k = 0, k >= n, sum = 0) is not reachable by HMAC outputs and is not decided here"},
 	},
+	"C06": {
+		Engine:   "curlsim",
+		Quick:    []flavPlan{{"plain", 20000, 200}, {"purego", 10000, 200}},
+		Thorough: []flavPlan{{"plain", 600000, 2000}, {"purego", 300000, 2000}},
+		Rule: "one evaluation = one history of 4..16 calls (Absorb of 0..3 blocks in six trit patterns, Squeeze of 0..3 blocks, Clone, Reset with a new batch size, CopyState, and injected caller errors: empty batch, 65 lanes, trit count not a multiple of 243) over up to 4 live handles with batch sizes 1..64, " +
+			"each handle compared after every call with its own set of independent single-lane reference sponges; non-trivial if the history has at least two state-changing calls; distinct = distinct hashes of the executed call sequence (handle, call, sizes, pattern) among those. " +
+			"Both build configurations of the permutation (amd64 assembly = flavour plain, portable = flavour purego) are run",
+		Real:   []string{"pkg/curl: Curl.Absorb, Squeeze, Clone, Reset, CopyState, in/out bit-plane packing, transform (assembly and portable)"},
+		Stub:   []string{"nothing is stubbed; there is no scheduler or I/O in this component - the simulator contributes generated call histories over several handles, injected caller errors, the reference model, shrinking and replay"},
+		Assume: []string{"reference Curl-P-81 (trit level, one lane) written from the specification and self-tested against the published vectors", "sampling, not enumeration", "lanes beyond the supplied batch are not compared (the property says nothing about them)"},
+	},
 }
